@@ -468,12 +468,12 @@ class MainRun(Harness):
 def tasks(tier):
     q = tier == 'quick'
     T = []
-    for nh in ((1, 2, 3) if q else (1, 2, 3, 4, 6)):
+    for nh in ((1, 2, 3) if q else (1, 2, 3, 4, 6, 8, 12)):
         T.append(Spelling('name', nh, 0))
         T.append(Spelling('name:', nh, 0))
         for np_ in ((1, 2, 5) if q else (1, 2, 3, 4, 5)):
             T.append(Spelling('name:port', nh, np_))
-    for nh in ((3, 4) if q else (3, 4, 6, 8)):
+    for nh in ((3, 4) if q else (3, 4, 5, 6, 7, 8)):
         T.append(Spelling('v6', nh, 0))
         T.append(Spelling('[v6]', nh, 0))
         T.append(Spelling('v6compressed', max(1, nh - 2), 0))
@@ -492,7 +492,7 @@ def tasks(tier):
         for with_p in (False, True):
             T.append(TargetsFile(shape, with_p))
     for pref in ((), (4,), (6,), (4, 6), (6, 4)):
-        for n in ((0, 1, 2, 3) if q else (0, 1, 2, 3, 4)):
+        for n in ((0, 1, 2, 3) if q else (0, 1, 2, 3, 4, 5, 6)):
             T.append(Resolve(pref, n))
         for host in ('2001:db8::5', '192.0.2.9'):
             for n in (0, 1, 2):
@@ -502,11 +502,16 @@ def tasks(tier):
             T.append(Label(hi, np_))
     for shape in ([('cmd-host',), ('cmd-host:port',), ('host:port', 'host'), ('host', 'host:port'), ('padded', 'blank', 'host')] if q else
                   [('cmd-host',), ('cmd-host:port',), ('host:port', 'host'), ('host', 'host:port'), ('padded', 'blank', 'host'),
-                   ('host:port', 'host:port', 'host'), ('host', 'host', 'host:port'), ('host:port', 'blank', 'host', 'host')]):
+                   ('host:port', 'host:port', 'host'), ('host', 'host', 'host:port'), ('host:port', 'blank', 'host', 'host'), ('padded', 'host', 'padded', 'host'),
+                   ('host', 'host:port', 'host', 'host:port', 'host')]):
         for with_p in (False, True):
             T.append(MainRun(shape, with_p, 2))
-    for shape in [('cmd-host:port',), ('host:port', 'host')]:
-        T.append(MainRun(shape, True, 5))
+    for shape in ([('cmd-host:port',), ('host:port', 'host')] if q else
+                  [('cmd-host:port',), ('host:port', 'host'), ('host', 'host:port'), ('host:port', 'host:port'), ('padded', 'blank', 'host')]):
+        for nd in ((5,) if q else (1, 3, 4, 5)):
+            T.append(MainRun(shape, True, nd))
+            if not q:
+                T.append(MainRun(shape, False, nd))
     return T
 
 
